@@ -63,7 +63,7 @@ def clean_tree(tree, data=None):
 
     idx_map = {}
 
-    for data_points, node in node_map.items():
+    for (data_points, _clade), node in node_map.items():
         idx_map[node] = sorted(data_points)
 
     nx.set_node_attributes(new_tree, name="idxs", values=idx_map)
@@ -112,7 +112,8 @@ def _relabel(node, transformed, original):
         for mutation in children:
             result.remove(mutation)
 
-    result = frozenset(result)
+    # Keep the clade in the node identity: two clades that both have no mutations of their own must stay distinct nodes
+    result = (frozenset(result), node)
 
     transformed.add_node(result)
 
